@@ -7,6 +7,7 @@ case of the model").  The code-entry protocol part (only one of allocate/set/inp
 nothing sent for a malformed code) is checked on spec/Wormhole.tla and through replays, as for the other
 mailbox properties.
 """
+import itertools
 import json
 import os
 import random
@@ -191,7 +192,9 @@ def run(prop, tier):
                                "expected_words": sorted(cmps[5][3])[:5]})
         # ---------------- 2b. choose_words as a function of the random bytes
         def choose(bytes_):
-            it = iter(bytes_)
+            # (an implementation that draws more random bytes than one per word gets them - from a fixed continuation - and
+            # shows the difference in its result; it does not crash the harness)
+            it = itertools.chain(iter(bytes_), itertools.cycle([0x5a, 0xa5, 0x3c, 0xc3, 0x0f]))
             orig = wlmod.os
             wlmod.os = types.SimpleNamespace(urandom=lambda n: bytes([next(it) for _ in range(n)]))
             try:
@@ -203,6 +206,9 @@ def run(prop, tier):
             return "-".join((odd if i % 2 == 0 else even)[b] for i, b in enumerate(bytes_))
         cases = [[b] for b in range(256)] + [[0, b] for b in range(256)] + [[b, 255] for b in range(256)]
         cases += [[rng.randrange(256) for _ in range(n)] for n in (3, 4, 5, 8) for _ in range(40 if quick else 400)]
+        # the words are independent draws: the same byte at two positions gives the same word of that list twice
+        cases += [[b, (b * 7 + 1) % 256, b] for b in range(256)] + [[(b * 5 + 3) % 256, b, (b * 11) % 256, b] for b in range(256)]
+        cases += [[b, b, b, b, b] for b in range(0, 256, 5)] + [[1, 2, 3, 4, 1], [9, 8, 7, 8, 9, 8], [0, 0, 0], [255, 255, 255, 255]]
         if not quick:
             cases += [[a, b] for a in range(256) for b in range(256)]
         for bs in cases:
